@@ -199,8 +199,8 @@ class Runner:
         t0 = time.time()
         try:
             # the hang limit as CPU time (independent of the machine load): SIGXCPU after TIMEOUT seconds of CPU;
-            # the wall-clock limit (scaled by the load) only catches a process that sleeps forever
-            p = subprocess.run([self.erg] + args + [path], env=self.env, capture_output=True, timeout=self.timeout * 3,
+            # the wall-clock limit (ten times the limit, scaled by the current load) only catches a process that sleeps forever
+            p = subprocess.run([self.erg] + args + [path], env=self.env, capture_output=True, timeout=max(600, TIMEOUT * load_factor() * 10),
                                cwd=os.path.dirname(path), preexec_fn=_cpu_limit)
             text = (p.stdout + p.stderr).decode("utf-8", "replace")
             if p.returncode == -24:      # SIGXCPU
@@ -275,7 +275,7 @@ class Runner:
         top = sorted(score, key=lambda n: (-score[n], n))[:2]
         return "+".join(sorted(top))[:300]
 
-    def run_one(self, name, src, levels=None, default_magic=False):
+    def run_one(self, name, src, levels=None, default_magic=False, resolve=True):
         levels = self.levels if levels is None else levels
         d = os.path.join(self.work, name)
         os.makedirs(d, exist_ok=True)
@@ -296,7 +296,7 @@ class Runner:
                 break       # `erg compile` starts with the same analysis: it would only hang again
             outs.append(self._cmd("compile -o %d" % lv, ["compile", "-o", str(lv)] + magic, path))
         self.commands += len(outs)
-        for o in outs:
+        for o in (outs if resolve else []):     # resolve=False (shrinking): no gdb re-runs
             if o.kind == "signal" and o.site == "stack-overflow":
                 argv = o.cmd.split()
                 extra = ["--py-magic-num", MAGIC_311] if (argv[0] == "compile" and magic) else []
